@@ -987,6 +987,8 @@ def uniform_swing_request_replay(lambda_=3.0):
         b = sig.bind(self, *a, **k)
         b.apply_defaults()
         log.append({n: (v if isinstance(v, (bool, int, float)) else type(v).__name__) for n, v in b.arguments.items() if n != "self"})
+        log[-1]["_arrays"] = {n: np.asarray(b.arguments[n], dtype=float).ravel() for n in ("y", "weights") if b.arguments.get(n) is not None}
+        log[-1]["_rows"] = int(np.asarray(b.arguments["x"]).shape[0])
         return real_fit(self, *a, **k)
 
     rng = np.random.default_rng(2)
@@ -1020,7 +1022,14 @@ def uniform_swing_request_replay(lambda_=3.0):
         want = np.maximum(np.round(non.last_election_results_turnout * (1 + med)), non.results_turnout)
         close = bool(np.all(np.abs(np.asarray(preds) - np.asarray(want)) <= np.maximum(2.0, 0.01 * np.asarray(want))))
         out["predictions_are_the_weighted_median_swing"] = close
-        out["ok"] = bool(ok_req and close)
+        # rows, weights and response of the request: every reporting unit, weighted by its baseline (previous result + 1),
+        # response = relative change
+        arrs = req["_arrays"]
+        ok_rows = req["_rows"] == n_rep and np.array_equal(arrs.get("weights"), rep.last_election_results_turnout.to_numpy(dtype=float)) and np.allclose(arrs.get("y"), rep.residuals_turnout.to_numpy(dtype=float), rtol=0, atol=0)
+        out["request_rows_weights_response_are_the_reporting_units_baselines_and_relative_changes"] = bool(ok_rows)
+        if not ok_rows:
+            out["weights_passed"], out["baselines"] = [float(v) for v in arrs.get("weights")[:4]], [float(v) for v in rep.last_election_results_turnout[:4]]
+        out["ok"] = bool(ok_req and close and ok_rows)
     except Exception as e:  # noqa
         out["exc"] = f"{type(e).__name__}: {e}"
         out["ok"] = False
@@ -1951,4 +1960,91 @@ def inaccurate_solution_replay():
     out["attempts_normalize_weights"] = log
     out["solves"] = state["n"]
     out["ok"] = out["exc"] is None and log == [True, False]
+    return out
+
+
+def population_correction_replay():
+    """REAL NonparametricElectionModel._compute_population_correction on hand-built and random calibration sets (unequal
+    baselines, tied scores, cumulative shares that land within 0.005 of the quantile on either side; dyadic baseline totals
+    so that the float shares are exact): the correction c must be a calibration score, the baseline-weighted share of the
+    calibration units with score <= c must EXCEED q, and no smaller calibration score may have that property"""
+    from fractions import Fraction
+
+    from elexmodel.models.NonparametricElectionModel import NonparametricElectionModel
+
+    m = NonparametricElectionModel({})
+    rng = np.random.default_rng(12)
+    cases = [([50] * 16 + [146, 30, 24], list(range(19)), 0.9 * (1 + 1 / 19))]
+    for _ in range(400):
+        n = int(rng.integers(2, 40))
+        raw = rng.integers(1, 60, n).astype(int)
+        tot = int(raw.sum())
+        p2 = 1
+        while p2 < tot:
+            p2 *= 2
+        raw[0] += p2 - tot
+        scores = rng.integers(0, max(2, n // 2), n) / 8.0 if rng.random() < 0.5 else rng.permutation(n) / 8.0
+        # a quantile close to a reachable cumulative share (below, at, or above it)
+        order = np.argsort(scores, kind="stable")
+        cum = np.cumsum(raw[order]) / p2
+        k = int(rng.integers(0, n))
+        q = float(min(0.995, max(0.01, cum[k] + rng.choice([-0.004, -0.0005, 0.0, 0.0005, 0.004]))))
+        if q >= 1.0:
+            continue
+        cases.append((raw.tolist(), scores.tolist(), q))
+    out = {"exc": None, "failures": [], "cases": len(cases)}
+    try:
+        for base, scores, q in cases:
+            df = pd.DataFrame({"last_election_results_turnout": np.asarray(base, dtype=float)})
+            sc = pd.Series(np.asarray(scores, dtype=float))
+            c = float(m._compute_population_correction(df, sc, q, "turnout"))
+            tot = Fraction(sum(int(b) for b in base))
+            share = lambda v: sum(Fraction(int(b)) for b, s_ in zip(base, scores) if float(s_) <= v) / tot  # noqa: E731
+            qf = Fraction(q)
+            ok = any(float(s_) == c for s_ in scores) and share(c) > qf and all(not (share(float(s_)) > qf) for s_ in scores if float(s_) < c)
+            if not ok:
+                out["failures"].append({"baselines": base[:12], "scores": [float(s_) for s_ in scores[:12]], "q": q, "correction": c, "share_covered": float(share(c)), "n": len(base)})
+        out["failures"] = out["failures"][:4]
+        out["ok"] = not out["failures"]
+    except Exception as e:  # noqa
+        out["exc"] = f"{type(e).__name__}: {e}"
+        out["ok"] = False
+    return out
+
+
+def unit_table_prediction_replay():
+    """REAL ModelResultsHandler (add_unit_predictions, add_unit_intervals) with hand-made predictions and bounds in which one
+    outstanding unit's prediction lies OUTSIDE its 0.7 interval and another's outside its 0.9 interval: the prediction column
+    of the unit table must be the given predictions -- whichever levels are requested, in whichever order -- and the bounds
+    the given bounds"""
+    from elexmodel.handlers.data.ModelResults import ModelResultsHandler
+    from elexmodel.models.ConformalElectionModel import PredictionIntervals
+
+    def frames_():
+        rep = pd.DataFrame({"postal_code": "AA", "geographic_unit_fips": ["r1", "r2"], "results_turnout": [100.0, 50.0], "reporting": 1, "unit_category": "expected"})
+        non = pd.DataFrame({"postal_code": "AA", "geographic_unit_fips": ["n1", "n2", "n3"], "results_turnout": [10.0, 0.0, 5.0], "reporting": 0, "unit_category": "expected"})
+        unx = pd.DataFrame({"postal_code": "AA", "geographic_unit_fips": ["x1"], "results_turnout": [7.0], "reporting": 0, "unit_category": "unexpected"})
+        return rep, non, unx
+
+    preds = np.array([400.0, 90.0, 30.0])
+    bounds = {0.7: (np.array([350.0, 95.0, 20.0]), np.array([380.0, 120.0, 44.0])), 0.9: (np.array([300.0, 60.0, 31.0]), np.array([500.0, 150.0, 60.0]))}
+    out = {"exc": None, "problems": []}
+    try:
+        for levels in ([0.7], [0.9], [0.7, 0.9], [0.9, 0.7]):
+            rep, non, unx = frames_()
+            mr = ModelResultsHandler(["postal_code", "unit"], list(levels), rep, non, unx)
+            mr.add_unit_predictions("turnout", preds.copy())
+            mr.add_unit_intervals("turnout", {a: PredictionIntervals(bounds[a][0].copy(), bounds[a][1].copy()) for a in levels})
+            ud = mr.unit_data["turnout"].set_index("geographic_unit_fips")
+            for i, uid in enumerate(["n1", "n2", "n3"]):
+                if float(ud.loc[uid, "pred_turnout"]) != preds[i]:
+                    out["problems"].append({"levels": levels, "unit": uid, "prediction_given": float(preds[i]), "prediction_in_the_table": float(ud.loc[uid, "pred_turnout"])})
+                for a in levels:
+                    if float(ud.loc[uid, f"lower_{a}_turnout"]) != bounds[a][0][i] or float(ud.loc[uid, f"upper_{a}_turnout"]) != bounds[a][1][i]:
+                        out["problems"].append({"levels": levels, "unit": uid, "level": a, "what": "bounds in the table are not the given bounds"})
+        out["problems"] = out["problems"][:4]
+        out["ok"] = not out["problems"]
+    except Exception as e:  # noqa
+        out["exc"] = f"{type(e).__name__}: {e}"
+        out["ok"] = False
     return out
